@@ -11,34 +11,40 @@ package criteria_bounding
 //@      b.valueRange == nil ? trimmed(*b.bounding, x) : clamp2(trimmed(*b.bounding, x), b.valueRange.Min, b.valueRange.Max)
 
 //@ func boundValueInRange
-//@   property C17 C18 C19 C20
+//@   property C17 C18 C19 C20 C01 C07 C09
 //@   nopanic
 //@   ensures [clamp] result == clamp2(value, scaledRange.Min, scaledRange.Max)
 //@ func scaleRange
-//@   property C17 C18 C19 C20
+//@   property C17 C18 C19 C20 C01 C07 C09
 //@   requires valueRange != nil
 //@   ensures [scaled] result != nil && result.Min == utils.scaledMin(*valueRange, scaling) && result.Max == utils.scaledMax(*valueRange, scaling)
 //@ func (*CriteriaBounding).trimBelowZeroIfRequired
-//@   property C17 C18 C19 C20
+//@   property C17 C18 C19 C20 C01 C07 C09
 //@   ensures [trim] result == trimmed(*b, value)
 //@ func (*CriteriaBounding).WithRange
-//@   property C17 C18 C19 C20
+//@   property C17 C18 C19 C20 C01 C07 C09
 //@   requires valueRange != nil
 //@   ensures [kept] fresh(result) && result.bounding == b
 //@   ensures [interval] b.AllowedValuesRangeScaling > 0.0 ? (result.valueRange != nil
 //@              && result.valueRange.Min == utils.scaledMin(*valueRange, b.AllowedValuesRangeScaling)
 //@              && result.valueRange.Max == utils.scaledMax(*valueRange, b.AllowedValuesRangeScaling)) : result.valueRange == nil
 //@ func (*CriteriaInRangeBounding).BoundValue
-//@   property C17 C18 C19 C20
+//@   property C17 C18 C19 C20 C01 C07 C09
 //@   ensures [bounded] result == boundedIn(*b, value)
 //@ func FromParams
-//@   property C17 C18 C19 C20
+//@   property C17 C18 C19 C20 C01 C07 C09
 //@   ensures [nonzero] result.AllowedValuesRangeScaling != 0.0 && fresh(result)
 //@ func DefaultParams
-//@   property C17 C18 C19 C20
+//@   property C17 C18 C19 C20 C01 C07 C09
 //@   ensures fresh(result) && result.AllowedValuesRangeScaling == -1.0 && !result.DisallowNegativeValues
 
 //@ lemma [C17 C18 C19] clamp_in_interval: forall x real, lo real, hi real
 //@   requires lo <= hi
 //@   ensures  lo <= clamp2(x, lo, hi) && clamp2(x, lo, hi) <= hi
 //@   ensures  lo <= x && x <= hi ==> clamp2(x, lo, hi) == x
+
+// ---- wire format: the JSON names under which requests are read and responses are written (struct tags; encoding/json
+// itself is outside the verified code).  A renamed or omitempty field changes what a client sees without changing any Go value.
+//@ wire CriteriaBounding
+//@   property C01 C17 C18 C19 C20
+//@   json AllowedValuesRangeScaling=allowedValuesRangeScaling DisallowNegativeValues=disallowNegativeValues
